@@ -254,7 +254,22 @@ theorem substitute_in_configured_subnet (cfg : Cfg) (req : Req) (ext : Ext) (m :
     refine ⟨ip, s, by simp [Heap.get], ?_, hw, randAddr_contains (hwf s (List.mem_append_right _ hs)) hr⟩
     simp only at ht; simp [subnetsFor, ht, hs]
 
-/-- **A phantom in an excluded subnet is never replaced.** -/
+/-- **An exclusion entry protects whatever else it says**: the turn of the exclusion loop for an entry is the
+containment test of the entry's network — for every transport label, weight, port and prefix id the entry
+carries and for every transport of the registration.  (An exclusion that looked at its own label, e.g.
+skipped a `Min_Transport` entry for a Prefix registration, is a different function: this theorem and
+`excluded_never_replaced` below are not provable for it.) -/
+theorem exclusion_applies_whatever_the_entry_says (e : Subnet) (t a : Nat) :
+    e.excludes t a = e.contains a ∧
+    ∀ (l : TLabel) (w p : Nat) (px : Option (Int × String × Int)) (t' : Nat),
+      ({ e with label := l, weight := w, port := p, pfx := px } : Subnet).excludes t' a = e.excludes t a := by
+  refine ⟨rfl, ?_⟩
+  intro l w p px t'
+  rfl
+
+/-- **A phantom in an excluded subnet is never replaced** — by an entry `e` of the exclusion list with any
+transport label (unset, the registration's own transport, another transport, no transport at all), any weight,
+port and prefix id, for a registration of any transport: only `e`'s network is a hypothesis. -/
 theorem excluded_never_replaced (cfg : Cfg) (req : Req) (ext : Ext) (m : Nat) (a : Option String) (c : Resp) (f : Fwd)
     (h : registerBidirectional W cfg req ext m a = .ok c f) (x : Nat) (hsel : selected4 req ext = some x)
     (e : Subnet) (he : e ∈ cfg.exclusions) (hin : e.contains x = true) : c.v4 = some x := by
@@ -262,7 +277,7 @@ theorem excluded_never_replaced (cfg : Cfg) (req : Req) (ext : Ext) (m : Nat) (a
   obtain ⟨h0, _, hpre, hsr⟩ := processBdReq_cases hbd
   have hsel' : selected4 { req with forgedResp := none } ext = selected4 req ext := rfl
   rw [hsel', hsel] at hpre
-  have hexc : excluded cfg (h0.get h0.rp).v4 = true := by
+  have hexc : excluded cfg ({ req with forgedResp := none } : Req).transport (h0.get h0.rp).v4 = true := by
     rw [hpre.v4]
     unfold excluded
     rw [List.any_eq_true]
@@ -289,7 +304,7 @@ are draws for which the client (and, by `client_view_eq_forwarded`, the stations
 theorem every_weighted_subnet_used (cfg : Cfg) (req : Req) (ext : Ext) (m : Nat) (a : Option String)
     (henf : cfg.enforce = true) (hpct : ext.pctDraw < cfg.pctMin) (ht : req.transport = 1)
     (c0 : Resp) (f0 : Fwd) (h0 : registerBidirectional W cfg req ext m a = .ok c0 f0)
-    (hnx : excluded cfg (selected4 req ext) = false)
+    (hnx : excluded cfg req.transport (selected4 req ext) = false)
     (i : Nat) (s : Subnet) (hs : cfg.minSubnets[i]? = some s) (hw : 0 < s.weight) (hv4 : s.isV4 = true) (hwf : s.wf) :
     ∃ uNum uDen c f, uNum < uDen ∧
       registerBidirectional W cfg req { ext with uNum := uNum, uDen := uDen } m a = .ok c f ∧
@@ -307,7 +322,8 @@ theorem every_weighted_subnet_used (cfg : Cfg) (req : Req) (ext : Ext) (m : Nat)
   obtain ⟨ip, hip⟩ : ∃ ip, randAddr s ext.hostDraw = some ip := by simp [randAddr, hv4]
   -- the draw `u` is read only by the subnet override: everything before it is unchanged
   have hps' : preStage cfg { req with forgedResp := none } { ext with uNum := uN, uDen := uD } = .ok hh := hps
-  have hexc : excluded cfg (hh.get hh.rp).v4 = false := by rw [hpre.v4]; exact hnx
+  have hexc : excluded cfg req.transport (hh.get hh.rp).v4 = false := by rw [hpre.v4]; exact hnx
+  rw [ht] at hexc
   have hsub : subnetOverride cfg { req with forgedResp := none } { ext with uNum := uN, uDen := uD } hh =
       hh.updR fun r => { r with v4 := some ip } := by
     unfold subnetOverride
@@ -329,7 +345,7 @@ theorem every_weighted_prefix_subnet_used (cfg : Cfg) (req : Req) (ext : Ext) (m
     (henf : cfg.enforce = true) (hpct : ext.pctDraw < cfg.pctPrefix) (ht : req.transport = 4)
     (hdis : req.disable = false)
     (c0 : Resp) (f0 : Fwd) (h0 : registerBidirectional W cfg req ext m a = .ok c0 f0)
-    (hnx : excluded cfg (selected4 req ext) = false)
+    (hnx : excluded cfg req.transport (selected4 req ext) = false)
     (i : Nat) (s : Subnet) (hs : cfg.prefixSubnets[i]? = some s) (hw : 0 < s.weight) (hv4 : s.isV4 = true) (hwf : s.wf)
     (id : Int) (pre : String) (fl : Int) (hpfx : s.pfx = some (id, pre, fl)) :
     ∃ uNum uDen c f, uNum < uDen ∧
@@ -348,7 +364,8 @@ theorem every_weighted_prefix_subnet_used (cfg : Cfg) (req : Req) (ext : Ext) (m
   rw [hsel] at hpre
   obtain ⟨ip, hip⟩ : ∃ ip, randAddr s ext.hostDraw = some ip := by simp [randAddr, hv4]
   have hps' : preStage cfg { req with forgedResp := none } { ext with uNum := uN, uDen := uD } = .ok hh := hps
-  have hexc : excluded cfg (hh.get hh.rp).v4 = false := by rw [hpre.v4]; exact hnx
+  have hexc : excluded cfg req.transport (hh.get hh.rp).v4 = false := by rw [hpre.v4]; exact hnx
+  rw [ht] at hexc
   have hsub : subnetOverride cfg { req with forgedResp := none } { ext with uNum := uN, uDen := uD } hh =
       { hh with
         o1 := { (hh.get hh.rp) with port := some s.port,
@@ -371,8 +388,8 @@ theorem every_weighted_prefix_subnet_used (cfg : Cfg) (req : Req) (ext : Ext) (m
 
 def cfg0 : Cfg :=
   { authenticated := true, hasOverrides := false, enforce := true, pctMin := 10000, pctPrefix := 10000,
-    minSubnets := [⟨true, 167837952, 24, 1, 443, none⟩, ⟨true, 167903488, 24, 0, 80, none⟩, ⟨true, 167969024, 24, 2, 22, none⟩],
-    prefixSubnets := [], exclusions := [⟨true, 3325256704, 24, 0, 0, none⟩] }
+    minSubnets := [⟨true, 167837952, 24, 1, 443, none, .named 1⟩, ⟨true, 167903488, 24, 0, 80, none, .named 1⟩, ⟨true, 167969024, 24, 2, 22, none, .named 1⟩],
+    prefixSubnets := [], exclusions := [⟨true, 3325256704, 24, 0, 0, none, .unset⟩] }
 def req0 : Req :=
   { hasPayload := true, secretLen := 32, v4 := true, v6 := true, transport := 1, disable := false, params := none,
     source := 0, regAddr := none, forgedResp := some { v4 := some 101058054, port := some 70000 },
@@ -408,7 +425,7 @@ example : stationApply true false none (.ok (.raw "20010db8010000000000000000000
     .reject "regaddr" := by decide +kernel
 example : ipKind "20010db8007700000000000000000001" = .v6 ∧ stationDerived req0.disable (.ok (.v4 1) 443) .fail (some resp0) ≠ .fail := by
   decide +kernel
-example : selected4 req0 ext0 = some 3405803783 ∧ excluded cfg0 (selected4 req0 ext0) = false := by decide
+example : selected4 req0 ext0 = some 3405803783 ∧ excluded cfg0 req0.transport (selected4 req0 ext0) = false := by decide
 example : ∀ s ∈ cfg0.minSubnets ++ cfg0.prefixSubnets, s.wf := by
   intro s hs
   simp [cfg0] at hs
@@ -416,6 +433,23 @@ example : ∀ s ∈ cfg0.minSubnets ++ cfg0.prefixSubnets, s.wf := by
 -- an excluded phantom (198.51.100.7 in 198.51.100.0/24) keeps its address
 example : (match registerBidirectional W cfg0 req0 { ext0 with sel4 := .ok 3325256711 true } 4 none with
     | .ok c _ => c.v4 | _ => none) = some 3325256711 := by decide
+-- … also when the entry is written as in the shipped reg_config.toml (weight 28.7 ≈ 230 eighths, port 80,
+-- `transport = "Min_Transport"`) and the registration is a Prefix one, or the entry is labelled
+-- `Prefix_Transport` / with a string that names no transport and the registration is a Min one
+def cfgX (l : TLabel) : Cfg :=
+  { cfg0 with exclusions := [⟨true, 3325256704, 24, 230, 80, none, l⟩],
+              prefixSubnets := [⟨true, 167837952, 24, 1, 443, some (1, "", 0), .named 4⟩] }
+def reqP : Req := { req0 with transport := 4, params := some (.pfx { prefixId := some 0 }) }
+example : (match registerBidirectional W (cfgX (.named 1)) reqP { ext0 with sel4 := .ok 3325256711 true } 4 none with
+    | .ok c _ => c.v4 | _ => none) = some 3325256711 := by decide
+example : ∀ l ∈ [TLabel.unset, .named 1, .named 4, .named 2, .unknown],
+    (match registerBidirectional W (cfgX l) req0 { ext0 with sel4 := .ok 3325256711 true } 4 none with
+      | .ok c _ => c.v4 | _ => none) = some 3325256711 ∧
+    (match registerBidirectional W (cfgX l) reqP { ext0 with sel4 := .ok 3325256711 true } 4 none with
+      | .ok c _ => c.v4 | _ => none) = some 3325256711 := by decide
+-- the same Prefix registration with a phantom outside the exclusion is moved into the Prefix override subnet
+example : (match registerBidirectional W (cfgX (.named 1)) reqP ext0 4 none with
+    | .ok c _ => c.v4 | _ => none) = some (167837952 + 77) := by decide
 -- the weighted choice over (1, 0, 2): thirds of [0, 1)
 example : choose [1, 0, 2] 0 3 = some 0 ∧ choose [1, 0, 2] 1 3 = some 2 ∧ choose [1, 0, 2] 2 3 = some 2 := by decide
 
